@@ -88,3 +88,12 @@ Print Assumptions C04_definitions_agree.
 Print Assumptions C04_token_names_agree.
 Print Assumptions C04_entity_tables_agree.
 Print Assumptions C04_lookups_equivalent.
+
+(* the heading fragment of the tokenizer (coq/HeadingFrag.v; each tokenizer is tied to the model instantiated with ITS
+   OWN depth limit by tools/headfrag.py): on this sub-language the two token streams are equal for EVERY string *)
+From MW Require HeadingFrag.
+Theorem C04_fragment_streams_agree : forall s,
+  HeadingFrag.frag_tokens (N.to_nat py_max_depth) s = HeadingFrag.frag_tokens (N.to_nat c_max_depth) s.
+Proof. intros s. now rewrite (proj1 C04_limits_agree). Qed.
+
+Print Assumptions C04_fragment_streams_agree.
